@@ -181,6 +181,95 @@ fn main() {
         "window" => window(&a[2], a[3].parse().unwrap()),
         // filter <neg 0|1> <Op> <xclass> <x> <litclass> <lit>: does `.where(expr)` accept the event iff a one-step sequence with the same
         // filter (translated by the real expr_to_sase_predicate, matched by the real SaseEngine) matches it?
+        "watermark" => {
+            // watermark <op> <name> <ts> <ooo_new> <n> {<key> <wm|-> <max|-> <ooo>}*   (times in ns)
+            // Bounded differential probe of PerSourceWatermarkTracker against the reference semantics, observed through
+            // effective_watermark(): the witness state is approximated by an API history, then a battery of histories over the
+            // witness's values is run; any disagreement after any operation is reported.
+            use chrono::{Duration, TimeZone, Utc};
+            use varpulis_runtime::watermark::PerSourceWatermarkTracker;
+            #[derive(Clone, Debug)]
+            struct Src { wm: Option<i64>, max: Option<i64>, ooo: i64 }
+            #[derive(Clone, Debug)]
+            enum Op { Reg(String, i64), Obs(String, i64), Adv(String, i64) }
+            fn reference(model: &mut Vec<(String, Src)>, eff: &mut Option<i64>, op: &Op) {
+                let recompute = |model: &Vec<(String, Src)>, eff: &mut Option<i64>| {
+                    if let Some(m) = model.iter().filter_map(|(_, s)| s.wm).min() { *eff = Some(m) }
+                };
+                match op {
+                    Op::Reg(k, o) => { model.retain(|(n, _)| n != k); model.push((k.clone(), Src { wm: None, max: None, ooo: *o })); }
+                    Op::Obs(k, t) => {
+                        if !model.iter().any(|(n, _)| n == k) { model.push((k.clone(), Src { wm: None, max: None, ooo: 0 })); }
+                        let s = &mut model.iter_mut().find(|(n, _)| n == k).unwrap().1;
+                        if s.max.map_or(true, |m| *t > m) {
+                            s.max = Some(*t);
+                            let cand = *t - s.ooo;
+                            if s.wm.map_or(true, |w| cand > w) { s.wm = Some(cand) }
+                        }
+                        recompute(model, eff);
+                    }
+                    Op::Adv(k, w) => {
+                        if let Some((_, s)) = model.iter_mut().find(|(n, _)| n == k) {
+                            if s.wm.map_or(true, |c| *w > c) { s.wm = Some(*w) }
+                            recompute(model, eff);
+                        }
+                    }
+                }
+            }
+            fn run(hist: &[Op]) -> Option<String> {
+                let mut t = PerSourceWatermarkTracker::new();
+                let mut model: Vec<(String, Src)> = Vec::new(); let mut eff: Option<i64> = None;
+                for (i, op) in hist.iter().enumerate() {
+                    match op {
+                        Op::Reg(k, o) => t.register_source(k, Duration::nanoseconds(*o)),
+                        Op::Obs(k, ts) => t.observe_event(k, Utc.timestamp_nanos(*ts)),
+                        Op::Adv(k, w) => t.advance_source_watermark(k, Utc.timestamp_nanos(*w)),
+                    }
+                    reference(&mut model, &mut eff, op);
+                    let got = t.effective_watermark().map(|d| d.timestamp_nanos_opt().unwrap());
+                    if got != eff { return Some(format!("after step {i} of {hist:?}: effective watermark {got:?}, reference {eff:?} (sources {model:?})")) }
+                }
+                None
+            }
+            let p = |s: &String| -> Option<i64> { if s == "-" { None } else { Some(s.parse().unwrap()) } };
+            let op = a[2].as_str(); let name = format!("k{}", a[3]); let ts: i64 = a[4].parse().unwrap(); let ooo_new: i64 = a[5].parse().unwrap();
+            let n: usize = a[6].parse().unwrap();
+            let mut setup: Vec<Op> = Vec::new(); let mut keys: Vec<String> = Vec::new(); let mut times: Vec<i64> = vec![ts, 0, 1]; let mut ooos: Vec<i64> = vec![0, ooo_new];
+            for i in 0..n {
+                let k = format!("k{}", a[7 + 4 * i]); let wm = p(&a[8 + 4 * i]); let mx = p(&a[9 + 4 * i]); let ooo: i64 = a[10 + 4 * i].parse().unwrap();
+                setup.push(Op::Reg(k.clone(), ooo));
+                if let Some(m) = mx { setup.push(Op::Obs(k.clone(), m)); times.push(m); times.push(m + 1); }
+                if let Some(w) = wm { setup.push(Op::Adv(k.clone(), w)); times.push(w); times.push(w + 1); times.push(w - 1); }
+                keys.push(k); ooos.push(ooo);
+            }
+            if !keys.contains(&name) { keys.push(name.clone()) }
+            let last = match op { "observe" => Op::Obs(name.clone(), ts), "advance" => Op::Adv(name.clone(), ts), _ => Op::Reg(name.clone(), ooo_new) };
+            let mut h = setup.clone(); h.push(last.clone());
+            let mut bad = run(&h);
+            // battery: every history of <= 3 operations after the setup (and from scratch), over the witness's keys and times
+            times.sort(); times.dedup(); ooos.sort(); ooos.dedup();
+            let mut ops: Vec<Op> = Vec::new();
+            for k in &keys { for t in &times { ops.push(Op::Obs(k.clone(), *t)); ops.push(Op::Adv(k.clone(), *t)); } }
+            let mut count = 1usize;
+            'outer: for base in [setup.clone(), Vec::new(), keys.iter().zip(ooos.iter().cycle()).map(|(k, o)| Op::Reg(k.clone(), *o)).collect()] {
+                if bad.is_some() { break }
+                let m = ops.len();
+                let depth = if m <= 12 { 3 } else { 2 };
+                let total = m.pow(depth as u32);
+                for idx in 0..total {
+                    let mut h = base.clone(); let mut x = idx;
+                    for _ in 0..depth { h.push(ops[x % m].clone()); x /= m; }
+                    h.push(last.clone());
+                    count += 1;
+                    if let Some(b) = run(&h) { bad = Some(b); break 'outer }
+                    if count > 400000 { break 'outer }
+                }
+            }
+            match bad {
+                Some(b) => println!("REPRODUCED watermark tracker disagrees with its specification {b}"),
+                None => println!("OK watermark: {count} histories agree with the reference (effective watermark after every step)"),
+            }
+        }
         "filter" => {
             use varpulis_runtime::engine::compiler::expr_to_sase_predicate;
             use varpulis_runtime::sase::{SaseEngine, SasePattern};
